@@ -3,6 +3,7 @@
 From Coq Require Import List Bool Arith NArith.
 Import ListNotations.
 From Supp Require Import Model.PyCore Model.Reach Model.Sem Proofs.ReachProofs Proofs.SemProofs Proofs.ReachComplete.
+From Supp Require Import Model.ReachX Proofs.ReachXProofs.
 
 (* Domain: Return-free commands (known finding K1: supp has no flow termination) in which every
    try with handlers can raise at both designated points ([full_raise]); read sites are not shared
@@ -89,3 +90,13 @@ Proof.
   repeat split; try reflexivity.
   intros r' y Hin Heq. simpl in Hin. destruct Hin as [H|[H|[]]]; injection H as <- <-; [reflexivity|discriminate].
 Qed.
+
+(* Since /repo fixes F62/F62b supp's analysis has `break`/`continue` edges (Model/ReachX.v). On the domain of
+   this property (no break / continue) it lists exactly the alternatives of the analysis the theorems above
+   speak about, for every read site and every entry environment - so they are theorems about the code. *)
+Theorem C03_same_rows_with_exit_edges : forall c s r, nobc c = true ->
+  forall a, In a (seenx c s r) <-> In a (seen c s r).
+Proof.
+  intros c s r Hn a. destruct (proj2 (anx_nobc c s Hn) r) as [H1 H2]. split; [apply H1|apply H2].
+Qed.
+Print Assumptions C03_same_rows_with_exit_edges.
